@@ -1,9 +1,10 @@
 """C06 - disjunction, if-then-else and negation follow standard semantics."""
-from lib import semcheck, progs
+from lib import semcheck, progs, progs_r4
 from lib.semcheck import impl, model_expr, oracle, describe, shrink, IMPORTS
 
 ID = 'C06'
-THEOREMS = ['C06_control_code_correct', 'C06_control_correct_flags', 'C06_compile_body_total', 'C06_compiled_program_computes_reference', 'C06_or_spec', 'C06_ite_spec', 'C06_if_no_else_spec', 'C06_not_spec', 'C06_neg_binds_nothing', 'C06_and_spec']
+THEOREMS = ['C06_control_code_correct', 'C06_control_correct_flags', 'C06_compile_body_total', 'C06_compiled_program_computes_reference', 'C06_or_spec', 'C06_ite_spec', 'C06_if_no_else_spec', 'C06_not_spec', 'C06_neg_binds_nothing', 'C06_and_spec',
+            'C06_not_not_spec', 'C06_neg_neq_spec', 'C06_neg_neq_is_not_eq']
 CASE_TIMEOUT = 60
 MODEL_NEEDS_IMPL = True
 COQ_CHUNK = 20
@@ -39,6 +40,21 @@ def gen(rng, tier):
     # exhaustive small scope of the shape "continuation duplication":  (A ; B), K  /  (C -> T ; E), K  /  (C -> T), K  where K is a
     # negation / if-then-else / if-then whose condition has a cut of its own (origin "exhaustive-contdup")
     cases.extend(progs.exhaustive_contdup_cases(tier != 'quick'))
+    # round 4: (a) \\+ directly over the builtins (= \\= call once, \\+ \\+) with unifiable arguments, the variables observed afterwards -
+    # random (Opts.negbuiltin) and exhaustive over a small set of argument pairs, wrappers and observers;  (b) three levels of
+    # local-cut constructs: a cut in a condition / negation, a committing if-then-else / negation in its else branch / continuation,
+    # all inside a further if-then-else / negation whose else branch is visible - random (Opts.localcut3) and exhaustive
+    for _ in range(n // 4):
+        o = progs.Opts(control=True, cut=rng.random() < 0.5, opaque_cut=rng.random() < 0.6, builtins=False, negbuiltin=rng.choice([0.2, 0.4]),
+                       localcut3=rng.choice([0.0, 0.3, 0.5]), numerals=rng.choice([0.0, 0.2]), constcmp=rng.choice([0.0, 0.15]))
+        p = progs.gen_program(rng, o)
+        cases.append({'clauses': p['clauses'], 'queries': p['queries'], 'shape': 'round4'})
+    # bodies at CPython's limit of 20 nested blocks (18 .. 20) and just beyond (21, 22: the compiler must refuse) ending in a disjunction /
+    # if-then-else / negation / condition with a cut of its own (no clause-level cut: those are C05's)
+    for _ in range(30 if tier == 'quick' else 300):
+        cases.append(progs_r4.gen_limit_body_program(rng, cuts=False))
+    cases.extend(progs_r4.exhaustive_neg_builtin_cases())
+    cases.extend(progs_r4.exhaustive_local_cut3_cases(tier != 'quick'))
     return cases
 
 def builtin_corpus():
@@ -82,6 +98,13 @@ def builtin_corpus():
 def compare(case, io, mo):
     return semcheck.compare(case, io, mo)
 
+def oracle(case, io):
+    """intrinsic, on the implementation alone: no query variable stays bound after the enumeration (semcheck), and - round 4 - `\\+ G`
+    never binds a variable: a predicate whose body is a single negation answers with the unchanged query (progs_r4.check_neg_binds_nothing);
+    an if-then-else never delivers answers of its then side and of its else branch (progs_r4.check_outer_commit, three-level family);
+    the answers of a clause do not depend on the deterministic padding of its body (progs_r4.check_same_answers, bodies at the nesting limit)"""
+    return semcheck.oracle(case, io) or progs_r4.check_neg_binds_nothing(case, io) or progs_r4.check_outer_commit(case, io) or progs_r4.check_same_answers(case, io)
+
 def nontrivial(case, io):
     if not isinstance(io, dict) or 'queries' not in io or not any(q['count'] >= 1 for q in io['queries']):
         return False
@@ -90,6 +113,9 @@ def nontrivial(case, io):
 def distribution(cases, obs):
     d = semcheck.stats(cases, obs)
     d['exhaustive_small_scope_bodies'] = sum(1 for c in cases if c.get('origin') == 'exhaustive')
+    d['limit_body_programs'] = sum(1 for c in cases if c.get('shape', '').startswith('limit-body'))
+    d['exhaustive_negated_builtin_programs'] = sum(1 for c in cases if c.get('origin') == 'exhaustive-neg-builtin')
+    d['exhaustive_three_level_local_cut_programs'] = sum(1 for c in cases if c.get('origin') == 'exhaustive-local-cut3')
     d['exhaustive_continuation_duplication_bodies'] = sum(1 for c in cases if c.get('origin') == 'exhaustive-contdup')
     d['programs_with_construct_after_disjunction_or_ite'] = sum(1 for c in cases if any(progs.has_dup_continuation(b) for _, _, b in c['clauses']))
     d['programs_with_local_cut_construct_in_duplicated_continuation'] = sum(1 for c in cases if any(progs.has_dup_continuation(b, True) for _, _, b in c['clauses']))
